@@ -217,4 +217,165 @@ example : LisHead [0, 62, 0, 0, 128, 0, 82, 85, 78, 79, 110, 101, 46, 108, 105, 
 example : LisHead [0, 0, 0, 0, 0, 0, 0, 0, 144, 0, 0, 0, 0, 132, 0, 0, 132, 0, 83, 69] :=
   ⟨by decide, by decide, by decide, by decide, by decide, ⟨144, by decide, by decide⟩⟩
 
+
+/-! ## Recognition: BIT -/
+
+/-- **BIT**: a file that begins with a TIF marker (type 0, back 0, next 288 in either byte order) followed by a complete
+276-byte description block is identified as `BIT`, whatever the block holds and whatever follows. -/
+theorem bit_identified (lisT : Bytes → LisRes) (datP : Bytes → Bool) (w blk rest : Bytes)
+    (hw : w = [32, 1, 0, 0] ∨ w = [0, 0, 1, 32]) (hblk : blk.length = 276) :
+    identify lisT datP ([0, 0, 0, 0, 0, 0, 0, 0] ++ w ++ blk ++ rest) = "BIT" := by
+  have key : ∀ t : Bytes, t.length = 12 → tifInitial t ≠ .empty → tifThirdWord t = 288 →
+      bitTest 12 288 276 (t ++ blk ++ rest) = "BIT" := by
+    intro t ht h1 h2
+    unfold bitTest
+    have e1 : (t ++ blk ++ rest).take 12 = t := by
+      rw [List.append_assoc, List.take_left' ht]
+    have e2 : (t ++ blk ++ rest).drop 12 = blk ++ rest := by
+      rw [List.append_assoc, List.drop_left' ht]
+    have e3 : ((blk ++ rest).take 276).length = 276 := by
+      simp [List.length_take, hblk]
+    have e4 : ¬ ((t ++ blk ++ rest).length < 12) := by simp [ht]
+    rw [e1, e2, e3, if_neg e4, if_neg h1, h2]
+    rfl
+  rcases hw with rfl | rfl
+  · have := key [0, 0, 0, 0, 0, 0, 0, 0, 32, 1, 0, 0] rfl (by decide) (by decide)
+    simp only [List.cons_append, List.nil_append] at this ⊢
+    rw [identify_skip_magic lisT datP 0 _ (by unfold notMagicFirst; omega)]
+    simp only [tests, List.filter, isMagic, Bool.not_true, Bool.not_false, firstMatch, runTest, this]
+    rfl
+  · have := key [0, 0, 0, 0, 0, 0, 0, 0, 0, 0, 1, 32] rfl (by decide) (by decide)
+    simp only [List.cons_append, List.nil_append] at this ⊢
+    rw [identify_skip_magic lisT datP 0 _ (by unfold notMagicFirst; omega)]
+    simp only [tests, List.filter, isMagic, Bool.not_true, Bool.not_false, firstMatch, runTest, this]
+    rfl
+
+example : ([32, 1, 0, 0] : Bytes) = [32, 1, 0, 0] ∨ ([32, 1, 0, 0] : Bytes) = [0, 0, 1, 32] := Or.inl rfl
+example : (List.replicate 276 65 : Bytes).length = 276 := List.length_replicate ..
+
+
+/-! ## Recognition: RP66V1 -/
+
+/-- a positive decimal number right-justified in `w` characters, padded with blanks and/or zeros -/
+def PadNumField (w : Nat) (f : Bytes) : Prop :=
+  f.length = w ∧ ∃ pad d ds, f = pad ++ d :: ds ∧ (∀ c ∈ pad, c = 32 ∨ c = 48) ∧ (49 ≤ d ∧ d ≤ 57) ∧ (∀ c ∈ ds, 48 ≤ c ∧ c ≤ 57)
+
+/-- the fields of a storage unit label (RP66V1 section 2.3.2) -/
+structure SUL where
+  seq : Bytes          -- storage unit sequence number, 4 characters
+  v1 : Nat             -- DLIS version `V1.` + two digits
+  v2 : Nat
+  maxlen : Bytes       -- maximum record length, 5 characters
+  sid : Bytes          -- storage set identifier, 60 characters
+
+def SUL.Conformant (s : SUL) : Prop :=
+  PadNumField 4 s.seq ∧ (48 ≤ s.v1 ∧ s.v1 ≤ 57) ∧ (48 ≤ s.v2 ∧ s.v2 ≤ 57) ∧ PadNumField 5 s.maxlen ∧
+  s.sid.length = 60 ∧ ∀ c ∈ s.sid, (9 ≤ c ∧ c ≤ 13) ∨ (32 ≤ c ∧ c ≤ 126)
+
+/-- the 80 bytes of the label -/
+def SUL.encode (s : SUL) : Bytes :=
+  s.seq ++ ([86, 49, 46, s.v1, s.v2] ++ ([82, 69, 67, 79, 82, 68] ++ (s.maxlen ++ s.sid)))
+
+theorem SUL.encode_length (s : SUL) (h : s.Conformant) : s.encode.length = 80 := by
+  obtain ⟨⟨h1, _⟩, _, _, ⟨h4, _⟩, h5, _⟩ := h
+  simp [SUL.encode, h1, h4, h5]
+
+theorem sul_rp66v1Bytes (s : SUL) (h : s.Conformant) : rp66v1Bytes s.encode = "RP66V1" := by
+  have hlen := s.encode_length h
+  obtain ⟨⟨h1, pad1, d1, ds1, e1, hp1, hd1, hds1⟩, hv1, hv2, ⟨h4, pad4, d4, ds4, e4, hp4, hd4, hds4⟩, h5, hpr⟩ := h
+  have f1 : slice s.encode 0 4 = s.seq := by
+    have := slice_append_prefix s.seq ([86, 49, 46, s.v1, s.v2] ++ ([82, 69, 67, 79, 82, 68] ++ (s.maxlen ++ s.sid)))
+    rwa [h1] at this
+  have f2 : slice s.encode 4 9 = [86, 49, 46, s.v1, s.v2] := by
+    have := slice_append_skip s.seq ([86, 49, 46, s.v1, s.v2] ++ ([82, 69, 67, 79, 82, 68] ++ (s.maxlen ++ s.sid))) 0 5
+    rw [h1] at this
+    rw [show SUL.encode s = s.seq ++ ([86, 49, 46, s.v1, s.v2] ++ ([82, 69, 67, 79, 82, 68] ++ (s.maxlen ++ s.sid))) from rfl, this]
+    simp [slice]
+  have f3 : slice s.encode 9 15 = [82, 69, 67, 79, 82, 68] := by
+    have := slice_append_skip s.seq ([86, 49, 46, s.v1, s.v2] ++ ([82, 69, 67, 79, 82, 68] ++ (s.maxlen ++ s.sid))) 5 11
+    rw [h1] at this
+    rw [show SUL.encode s = s.seq ++ ([86, 49, 46, s.v1, s.v2] ++ ([82, 69, 67, 79, 82, 68] ++ (s.maxlen ++ s.sid))) from rfl, this]
+    simp [slice]
+  have f4 : slice s.encode 15 20 = s.maxlen := by
+    have := slice_append_skip s.seq ([86, 49, 46, s.v1, s.v2] ++ ([82, 69, 67, 79, 82, 68] ++ (s.maxlen ++ s.sid))) 11 16
+    rw [h1] at this
+    rw [show SUL.encode s = s.seq ++ ([86, 49, 46, s.v1, s.v2] ++ ([82, 69, 67, 79, 82, 68] ++ (s.maxlen ++ s.sid))) from rfl, this]
+    have := slice_append_prefix s.maxlen s.sid
+    rw [h4] at this
+    simpa [slice] using this
+  have f5 : slice s.encode 20 80 = s.sid := by
+    have := slice_append_skip s.seq ([86, 49, 46, s.v1, s.v2] ++ ([82, 69, 67, 79, 82, 68] ++ (s.maxlen ++ s.sid))) 16 76
+    rw [h1] at this
+    rw [show SUL.encode s = s.seq ++ ([86, 49, 46, s.v1, s.v2] ++ ([82, 69, 67, 79, 82, 68] ++ (s.maxlen ++ s.sid))) from rfl, this]
+    have h45 : slice (s.maxlen ++ s.sid) 5 65 = s.sid := by
+      have := slice_append_skip s.maxlen s.sid 0 60
+      rw [h4] at this
+      rw [this]; simp [slice, ← h5]
+    simpa [slice] using h45
+  have m1 : shapeMatch reV1_c1 s.seq = true := by
+    simp only [reV1_c1, shapeMatch]; rw [e1]; exact dollar_of _ _ (padNumCore_spec pad1 d1 ds1 hp1 hd1 hds1)
+  have m2 : shapeMatch reV1_c2 [86, 49, 46, s.v1, s.v2] = true := by
+    simp only [reV1_c2, shapeMatch]; apply dollar_of
+    simp [verCore, isDigit, hv1, hv2]
+  have m3 : shapeMatch reV1_c3 [82, 69, 67, 79, 82, 68] = true := by decide
+  have m4 : shapeMatch reV1_c4 s.maxlen = true := by
+    simp only [reV1_c4, shapeMatch]; rw [e4]; exact dollar_of _ _ (padNumCore_spec pad4 d4 ds4 hp4 hd4 hds4)
+  have m5 : allPrintable s.sid = true := by
+    simp only [allPrintable, List.all_eq_true]
+    intro c hc
+    rcases hpr c hc with hh | hh
+    · exact printable_range c (by omega) (Or.inl hh)
+    · exact printable_range c (by omega) (Or.inr hh)
+  unfold rp66v1Bytes
+  rw [f1, f2, f3, f4, f5, m1, m2, m3, m4, m5, hlen, h5]
+  decide
+
+/-- **RP66V1**: a file that begins with *any* conformant storage unit label is identified as `RP66V1`, regardless of
+what follows the label (records, layout, content, size) and of what the deep tests would say. -/
+theorem rp66_identified (lisT : Bytes → LisRes) (datP : Bytes → Bool) (s : SUL) (h : s.Conformant) (rest : Bytes) :
+    identify lisT datP (s.encode ++ rest) = "RP66V1" := by
+  have hv := sul_rp66v1Bytes s h
+  have hlen := s.encode_length h
+  have htake : (s.encode ++ rest).take 80 = s.encode := List.take_left' hlen
+  obtain ⟨⟨h1, pad1, d1, ds1, e1, hp1, hd1, hds1⟩, hv1, hv2, _, _, _⟩ := h
+  -- the first non-blank byte is `0` or a digit: no LAS
+  have hlas : ∀ pfx, lasTest pfx (s.encode ++ rest) = "" := by
+    intro pfx
+    obtain ⟨c, r, hc, hc1, hc2⟩ := dropWhile_pad pad1 d1
+      (ds1 ++ ([86, 49, 46, s.v1, s.v2] ++ ([82, 69, 67, 79, 82, 68] ++ (s.maxlen ++ s.sid))) ++ rest) hp1 hd1
+    have e : s.encode ++ rest = pad1 ++ d1 :: (ds1 ++ ([86, 49, 46, s.v1, s.v2] ++ ([82, 69, 67, 79, 82, 68] ++ (s.maxlen ++ s.sid))) ++ rest) := by
+      simp [SUL.encode, e1]
+    rw [e]
+    exact las_fail pfx _ c r hc (by omega) (by omega)
+  -- bytes 0..11
+  obtain ⟨a0, a1, a2, a3, hseq⟩ : ∃ a0 a1 a2 a3, s.seq = [a0, a1, a2, a3] := by
+    rcases hs : s.seq with _ | ⟨a0, _ | ⟨a1, _ | ⟨a2, _ | ⟨a3, _ | ⟨a4, t⟩⟩⟩⟩⟩ <;> simp [hs] at h1
+    exact ⟨a0, a1, a2, a3, rfl⟩
+  have ha0 : a0 = 32 ∨ (48 ≤ a0 ∧ a0 ≤ 57) := by
+    rw [hseq] at e1
+    cases pad1 with
+    | nil => simp at e1; omega
+    | cons x p => simp at e1; rcases hp1 x (by simp) with hx | hx <;> omega
+  have hb : s.encode ++ rest = a0 :: a1 :: a2 :: a3 :: 86 :: 49 :: 46 :: s.v1 :: s.v2 :: 82 :: 69 :: 67 :: 79 :: 82 :: 68 :: (s.maxlen ++ s.sid ++ rest) := by
+    simp [SUL.encode, hseq]
+  have hbit : bitTest 12 288 276 (s.encode ++ rest) = "" := by
+    apply bit_fail
+    rw [hb]
+    simp only [tifThirdWord, le32, be32, byteAt, List.getD_cons_succ, List.getD_cons_zero]
+    split <;> omega
+  rw [hb] at hlas hbit htake ⊢
+  rw [identify_skip_magic lisT datP a0 _ (by unfold notMagicFirst; omega)]
+  simp only [tests, List.filter, isMagic, Bool.not_true, Bool.not_false, firstMatch, runTest, hbit, hlas, htake, hv]
+  rfl
+
+/-- `   1V1.00RECORD 8192Default Storage Set…` is conformant -/
+example : SUL.Conformant ⟨[32, 32, 32, 49], 48, 48, [32, 56, 49, 57, 50], List.replicate 60 32⟩ :=
+  ⟨⟨rfl, [32, 32, 32], 49, [], rfl, by decide, by decide, by decide⟩, by decide, by decide,
+   ⟨rfl, [32], 56, [49, 57, 50], rfl, by decide, by decide, by decide⟩, List.length_replicate .., by
+     intro c hc; rw [List.mem_replicate] at hc; omega⟩
+
+/-- sequence number `0010` and maximum record length `04096` (the forms of defect F4) are conformant too -/
+example : PadNumField 4 [48, 48, 49, 48] ∧ PadNumField 5 [48, 52, 48, 57, 54] :=
+  ⟨⟨rfl, [48, 48], 49, [48], rfl, by decide, by decide, by decide⟩, ⟨rfl, [48], 52, [48, 57, 54], rfl, by decide, by decide, by decide⟩⟩
+
 end TD.C20
